@@ -263,6 +263,11 @@ class Interp:
                     env[d["d"]] = wrap(v, d["t"]) if isinstance(v, int) else v
                 else:
                     env[d["d"]] = U
+                rsz = RECORD_SIZES.get(clean_type(d.get("t") or "").replace("struct ", ""))
+                if rsz and self.heap is not None and (init is None or init.strip().k == "InitListExpr"):
+                    # a struct object on the stack: its members live in the tracked heap
+                    self._objs = getattr(self, "_objs", 0) + 1
+                    env[("obj", d["d"])] = Ptr("local%d:%s" % (self._objs, d["n"]), 0, rsz)
                 if d["d"] in self.forced and fn is self.fn:
                     env[d["d"]] = self.forced[d["d"]]
         elif k == "IfStmt":
@@ -473,6 +478,9 @@ class Interp:
     def addr(self, n, env, fn, depth):
         """Address of an lvalue expression as (Ptr or None, size)."""
         n = n.strip()
+        if n.k == "DeclRefExpr" and ("obj", n.get("d")) in env:
+            o = env[("obj", n.get("d"))]
+            return o, o.esz
         if n.k == "UnaryOperator" and n.op == "*":
             p = self.ev(n.c[0], env, fn, depth)
             sz = TYPE_SIZES.get(clean_type(n.t), None)
@@ -642,6 +650,8 @@ class Interp:
             if t.k in ("ArraySubscriptExpr", "MemberExpr") or (t.k == "UnaryOperator" and t.op == "*"):
                 p, size = self.addr(t, env, fn, depth)
                 return p if p is not None else U
+            if t.k == "DeclRefExpr" and ("obj", t.get("d")) in env:
+                return env[("obj", t.get("d"))]
             if t.k == "DeclRefExpr" and t.get("d") is not None and t.get("dk") in ("local", "param"):
                 return ("ADDR", t.get("d"), t.t, env)      # address of a local: carries the frame it lives in
             return U
